@@ -137,6 +137,12 @@ const TYPES: [&str; 15] = ["valve", "gamespy1", "gamespy2", "gamespy3", "quake1"
 
 impl Check for C15 {
     fn id(&self) -> &'static str { "C15" }
+    fn miri_plan(&self, tier: Tier) -> Option<Vec<(u64, u64)>> {
+        if tier != Tier::Thorough {
+            return None;
+        }
+        Some((0 .. 16).map(|i| (i * 45, 45)).collect())
+    }
     fn rule(&self) -> String {
         "values of the 15 response types built in this configuration (and their player types) generated directly through their public fields from the models' random states (boundary numerics, string classes, empty lists, optional members); an accessor table written from the field documentation (DESIGN.md Appendix B.1) gives the expected name/description/game_mode/game_version/map/players_maximum/players_online/players_bots/has_password/players(name, score); accessors, as_json() field by field, its serde_json rendering re-parsed, players' as_json, and as_original() (same variant, equal to and pointing at the original) are compared. non-trivial = all comparisons done; distinct by value".into()
     }
